@@ -47,3 +47,6 @@ def run(repo, res, tier):
     _md8.rule_m2(repo, res)
     # consecutive missing values: progress made by the repair hook keeps the module loop going
     hookrules.rule_hook_flag(repo, res)
+    # the whole-document rewrite that produces self.doc handles every occurrence (no flag in the count position)
+    from .. import apirules as _ap8
+    _ap8.rule_re_flag_pos(repo, res)
